@@ -695,6 +695,10 @@ impl World {
         Ok(())
     }
 
+    pub fn has_twin(&self, p: usize) -> bool {
+        self.twins.contains_key(&p)
+    }
+
     pub fn drop_twin(&mut self, p: usize) {
         self.twins.remove(&p);
     }
@@ -1312,6 +1316,24 @@ impl World {
     pub fn save(&mut self, p: usize) -> Result<(), OpErr> {
         let party = &mut self.parties[p];
         guard(|| party.gm().write_to_storage())
+    }
+
+    /// The application keeps the ratchet tree elsewhere: tree-less write, returns the tree it has to keep.
+    pub fn save_tree_less(&mut self, p: usize) -> Result<Vec<u8>, OpErr> {
+        let party = &mut self.parties[p];
+        let tree = party.g().export_tree().to_bytes().map_err(|e| OpErr::Mls(format!("{e:?}")))?;
+        guard(|| party.gm().write_to_storage_without_ratchet_tree())?;
+        Ok(tree)
+    }
+
+    /// Counterpart of `save_tree_less`.
+    pub fn reload_with_tree(&mut self, p: usize, tree: &[u8]) -> Result<(), OpErr> {
+        self.drop_twin(p);
+        let gid = self.group_id.clone();
+        let party = &mut self.parties[p];
+        let g = guard(|| party.client.load_group_with_ratchet_tree(&gid, ExportedTree::from_bytes(tree)?))?;
+        party.group = Some(g);
+        Ok(())
     }
 
     /// Drop the in-memory group of party p and load it again from its storage.
